@@ -1,15 +1,21 @@
 #!/bin/bash
 # Regression of the kept seeded changes: every patch must still apply, keep the suite green, fail its demo and be caught
-# by the check of its property.  Patches /repo temporarily (restored after each seed): run nothing else meanwhile.
+# by the checks named in its meta.json ("caught_by": the seed's own property first where it catches it).
+# Patches /repo temporarily (restored after each seed): run nothing else meanwhile.
 cd "$(dirname "$0")/.."
 V=$(pwd)
 out=seeded/RESULTS.txt
 : > $out
 for d in seeded/*/; do
   n=$(basename $d)
-  p=${n%%-*}
+  props=$(/venv/bin/python -c "
+import json,sys,re
+m=json.load(open('$d/meta.json'))
+ps=[p for p in m.get('caught_by',[]) if re.fullmatch(r'C\d\d',p.strip())]
+own='$n'.split('-')[0]
+print(' '.join(dict.fromkeys(([own] if own in ps or not ps else [])+[p.strip() for p in ps])))")
   demo=$(ls $d/demo* | head -1)
-  res=$(/venv/bin/python harness/seedtest.py $V/${d}patch.diff $V/$demo $p 2>&1 | tr '\n' '|')
+  res=$(/venv/bin/python harness/seedtest.py $V/${d}patch.diff $V/$demo $props 2>&1 | tr '\n' '|')
   echo "$n :: $res" >> $out
 done
 echo done >> $out
